@@ -273,6 +273,37 @@ def tmpl_custom(rng, nodes, lits):
     return out
 
 
+def tmpl_shared(rng, nodes, lits):
+    """one shape PS reached twice for the same value node: once inside a logical component that swallows its failure
+    (sh:or / sh:xone / sh:not), once through sh:property or sh:node whose failure counts - by two sibling property
+    shapes over different predicates (the generator adds edges so that both predicates reach the same nodes)"""
+    u = _uid(rng)
+    iri_nodes = [n for n in nodes if isinstance(n, URIRef)]
+    ps = new_shape(EX["SH%s" % u] if rng.random() < 0.5 else BNode("sh%s" % u), ("pred", PREDS[2]))
+    ps["comps"].append(rng.choice([("mincount", 3), ("mincount", 1), ("maxcount", 0), ("class", [EX.NoSuchClass])]))
+    ps["sev"] = rng.choice([None, None, SH.Warning, SH.Info])
+    easy = new_shape(BNode("se%s" % u), None)          # (nearly) everything conforms to it
+    easy["comps"].append(("nodekind", rng.choice(["NKIRIOrLiteral", "NKBlankNodeOrIRI", "NKIRI"])))
+    a = new_shape(BNode("sa%s" % u), ("pred", PREDS[0]))
+    kind = rng.choice(["or", "or", "xone", "not"])
+    a["comps"].append(("not", [ps["id"]]) if kind == "not" else (kind, [[ps["id"], easy["id"]]]))
+    b = new_shape(BNode("sb%s" % u), ("pred", PREDS[1]))
+    b["comps"].append((rng.choice(["property", "property", "node"]), [ps["id"]]))
+    if b["comps"][0][0] == "node":
+        # sh:node needs a node shape: wrap the property shape
+        wrap = new_shape(BNode("sw%s" % u), None)
+        wrap["comps"].append(("property", [ps["id"]]))
+        b["comps"][0] = ("node", [wrap["id"]])
+        extra = [wrap]
+    else:
+        extra = []
+    b["sev"] = rng.choice([None, SH.Warning, SH.Info])
+    parent = new_shape(EX["SHP%s" % u], None)
+    parent["targets"]["nodes"] = rng.sample(iri_nodes, min(2, len(iri_nodes)))
+    parent["comps"].append(("property", [a["id"], b["id"]]))
+    return [parent, a, b, ps, easy] + extra
+
+
 def add_templates(rng, shapes, nodes, lits, p=0.5):
     if rng.random() < p:
         shapes.extend(tmpl_custom(rng, nodes, lits))
